@@ -80,6 +80,9 @@ func c01(ctx *run.Ctx) {
 			if !ctx.Quick() {
 				lengths = append(lengths, 400)
 			}
+			if ci <= 1 {
+				lengths = append(lengths, 1100+1000*ci) // long series: drift / periodic resynchronisation of running state
+			}
 			for _, class := range c01Classes(ctx, ind) {
 				class := class
 				for li := 0; li < len(lengths)*reps; li++ {
